@@ -508,7 +508,7 @@ def _dispatch(shard):
 def replay(rec):
     print('case:', rec.get('case'))
     print('observed on recorded run:', rec.get('observed'))
-    ctx = core.Ctx('C12', 'quick', 0)
+    ctx = core.Ctx('C12', rec.get('tier', 'quick'), 0)
     run(ctx)
     keys = sorted(ctx._viol)
     print('violations now:', keys)
